@@ -44,7 +44,7 @@ impl<'a> AsyncRead for AsyncScripted<'a> {
         let want = match &me.plan {
             Plan::Fill => rem,
             Plan::Bytewise => 1,
-            Plan::Sizes(v) => {
+            Plan::Sizes(v) | Plan::Interrupted(v) => {
                 let s = if v.is_empty() { rem } else { v[me.step.min(v.len() - 1)] };
                 me.step += 1;
                 s.max(1)
